@@ -7,6 +7,7 @@ open RV.C17
 #print axioms split_spec
 #print axioms longest_is_longest
 #print axioms trie_inv_insert
+#print axioms longest_in_histories
 #print axioms generated_prefix_fresh
 #print axioms old_nonoverride_bind_breaks_bijection
 #print axioms colon_prefix_not_expandable
